@@ -317,7 +317,7 @@ fn nth_string(alpha: &[char], mut idx: u64, max_len: u32) -> String {
 
 pub fn run_pure(ctx: &RunCtx) -> Vec<PartOutcome> {
     let mut parts = vec![];
-    let n = ctx.tier.pick(200_000, 4_000_000);
+    let n = ctx.tier.pick(600_000, 6_000_000);
     parts.push(explore(ctx, "tok_grammar", n * 3 / 4, grammar_line, check_line));
     parts.push(explore(ctx, "tok_bytes", n / 4, byte_line, check_line));
     let l = ctx.tier.pick(8u32, 10u32);
